@@ -48,17 +48,21 @@ CLAIMED = {
  "C07": ("Theorems C07_parse (every string the independent rank-by-rank reader SpecFen.parse accepts is loaded by the modelled character loop "
          "without panic into a board with exactly the described pieces, side, rights, en-passant file and counters, well-formed bitboards, the "
          "from-scratch key and an undo record consistent with the en-passant file), C07_behaves (legal moves, successors and key depend only on "
-         "that content, not on how the board came about), C07_abs_core. Tie: generated structurally valid FENs (rights subsets, ep both sides, clocks "
+         "that content, not on how the board came about), C07_abs_core; completeness: C07_print_parse / C07_every_position_loads (EVERY describable position - "
+         "64 arbitrary cells, either side, any rights, any en-passant file, counters <= 65535 - has a FEN, written by the specification-level printer, that the "
+         "independent reader reads back exactly and the engine's reader loads into exactly that content), C07_parse_describable. Tie: generated structurally valid FENs (rights subsets, ep both sides, clocks "
          "0..150, move numbers 1..6000, 4- and 6-field) full state engine vs model vs the independent reader; played positions written as FEN and "
          "reloaded: state, legal moves, successors compared. PARTIAL: ASCII only.",
          TB, "Coq proof (string-level refinement of the reader against an independent spec reader) + FEN correspondence"),
  "C08": ("Theorems C08_accept / C08_reject / C08_reject_keeps (all-or-nothing, independent of the earlier session), C08_find_move (a string "
          "is accepted exactly when it is the notation of a legal move), C08_notation_inj, C08_tokens_* (slicing), over the model of "
-         "parse_position / load_position / the command loop. Tie: sessions over the pipe with the guarded verifdump command, full state vs model.",
+         "parse_position / load_position / the command loop; E2E_position_then_go (props/EndToEnd.v): from the TEXT of `position startpos moves ...` to the rules "
+         "of chess (C08+C03+C01+C11/C17 invariant+C09 composed: the board abstracts to the rules position after those moves, and any following go answers with one "
+         "bestmove legal in the rules position). Tie: sessions over the pipe with the guarded verifdump command, full state vs model.",
          TB + "the search thread is abstracted in the sequential session model (protocol: C10).", "Coq proof over the UCI model + session correspondence over the pipe"),
  "C09": ("Theorem C09_answer: for every game, position with a legal move, limit combination, clock oracle and stop oracle the search output is "
-         "info lines followed by exactly one bestmove naming a legal move; C09_flag_cleared. Tie: in-process answers for every node budget "
-         "vs model; limit grid over the pipe (one legal bestmove per go, readyok after). PARTIAL: wall-clock latency is measured (runtime "
+         "info lines followed by exactly one bestmove naming a legal move; C09_flag_cleared. Tie: in-process answers for every node budget and for stop / "
+         "clock / movetime interruptions at oracle-indexed points vs model; limit grid over the pipe (one legal bestmove per go, readyok after). PARTIAL: wall-clock latency is measured (runtime "
          "evidence, 3-of-3 rule), not proved.",
          TB + "clock/stop are oracles; latency in milliseconds is outside the theorem.", "Coq proof over the search model with arbitrary abort oracles + correspondence + pipe grid"),
  "C10": ("Invariants over ALL reachable states of the input-thread x search-threads transition system (any command list, any schedule): one "
@@ -71,18 +75,23 @@ CLAIMED = {
          "value of the look-ahead game (check extension, quiescence, draws, mate distance, ply cap) and the chosen move attains it, for every "
          "window, depth, ordering, killer/cache content. Tie: cache-off searches engine vs model, and engine vs the reference V evaluated in Coq.",
          TB + "evaluation range hypothesis Inv_eval (chess: C17_value under <= 16 pieces a side).", "Coq proof (fuel induction, PVS loop contract, permutation invariance) + value correspondence"),
- "C12": ("PARTIAL. Theorem C12_mate_in_one (arbitrary game, cache ON, ANY cache content satisfying an invariant the search maintains — so also after "
-         "earlier iterations and earlier searches of the same position): a completed iteration of any depth >= 1 chooses a mating move whenever one "
-         "exists; C12_empty_cache_ok. The first two formulations were refuted by the proof agent (vm_compute counterexamples kept in the proof file): "
-         "after a mate in one is found the remaining root moves are searched with degenerate windows and leave unsound bound entries; what protects later "
-         "iterations is the cached root move being ordered first. Clauses 2 and 3 (mate in two kept; avoidable mate in one avoided) are NOT proved with the "
-         "cache on (ply-relative mate scores blur distances); they are judged on the engine's choices by a mate oracle evaluated in Coq on the model, on "
-         "sparse positions and sequences of searches sharing the cache. Tie: engine vs model (move, score) on those sequences.",
-         TB + "key injectivity (no collisions) is a hypothesis; clauses 2-3 validated not proved.", "Coq proof of clause 1 (two-mode cache invariant) + oracle-judged correspondence for clauses 2-3"),
- "C13": ("Theorems C13_budget (for EVERY node budget, game, position, depth: every cache write is made below the budget with the flag set) and "
-         "C13_over_budget_is_inert. Tie: complete cache-write traces engine vs model for every budget 1..size of the full search. PARTIAL: stop- "
-         "and clock-interruptions are covered by the same code path but the theorem is stated for node budgets (the property's quantifier).",
-         TB, "Coq proof (trace invariant) + write-trace correspondence over all budgets"),
+ "C12": ("Cache ON: theorem C12_mate_in_one (arbitrary game, ANY cache content satisfying an invariant the search maintains - so also after earlier "
+         "iterations and earlier searches of the same position): a completed iteration of any depth >= 1 chooses a mating move whenever one exists; "
+         "C12_empty_cache_ok. Cache neutralised: ALL THREE clauses as theorems (props/C12off.v, chess instance props/C12offchess.v): C12off_mate_in_one, "
+         "C12off_keeps_mate_in_two, C12off_avoids_mate_in_one and the value characterisation (move value = 32767 iff mates, >= 32765 iff keeps a mate in two, "
+         "<= -32766 iff allows a mate in one), from C11; the notions are proved equal to the boolean mate oracle the check evaluates. PARTIAL: clauses 2 and 3 "
+         "with the cache ON are not proved (ply-relative mate scores blur distances; two formulations were refuted with vm_compute counterexamples kept in the "
+         "proof file: after a mate in one is found the remaining root moves are searched with degenerate windows and leave unsound bound entries); with the cache "
+         "on they are judged on the engine's choices by that oracle on sparse positions and sequences of searches sharing the cache. Tie: engine vs model "
+         "(move, score, cache writes) on those sequences.",
+         TB + "key injectivity (no collisions) is a hypothesis; clauses 2-3 with the cache on validated not proved.", "Coq proofs (two-mode cache invariant; mate values of the exact negamax) + oracle-judged correspondence"),
+ "C13": ("Theorems C13_prefix (ANY limits, ANY monotone clock, ANY monotone stop oracle, any game/position/depth/initial cache, cache on or off: the "
+         "cache writes of the interrupted search are an initial segment of the writes of the same search left uninterrupted, so nothing written stems "
+         "from an unfinished subtree and nothing is written after the cut), C13_cut_cache_is_a_full_run_cache, C13_budget (every write below the budget "
+         "with the flag set), C13_over_budget_is_inert. Tie: complete cache-write traces engine vs model for every node budget 1..size of the full "
+         "search, and for stop / game-clock / movetime interruptions forced at the K-th leaf with the oracle index (which flag load, which clock "
+         "reading) reported by guarded counters and fed to the model; prefix property also checked on the engine alone.",
+         TB, "Coq proof (lockstep simulation of cut vs full run; trace invariant) + write-trace correspondence over all budgets and oracle cut points"),
  "C14": ("Theorems C14_depths_in_order (any limits/oracles: depths 1..k then the single bestmove), C14_pv_checked, C14_depth_only (depth N alone "
          "reports every depth 1..N). Tie: structured output trace engine vs model; real info lines matched against the UCI grammar and PVs "
          "replayed on the model. PARTIAL: character-level syntax is validated on real output, not proved.",
@@ -93,7 +102,7 @@ CLAIMED = {
          "measured; non-ASCII input outside the model.",
          TB + "FEN arguments assumed valid (as the property states).", "Coq proof (panics as values, totality) + bounded-exhaustive parser correspondence"),
  "C16": ("Theorem C16_clock_free: without time limits the whole search is independent of every clock reading, i.e. a function of (position, "
-         "depth bound, node budget, initial cache). Tie (the content): EXACT equality of best move, score, node count, seldepth, info lines and "
+         "depth bound, node budget, initial cache). Tie (the content): a guarded clock-skew hook makes the clock jump by 10^10 ms in mid-search with no time limit set: nothing may change; EXACT equality of best move, score, node count, seldepth, info lines and "
          "complete cache-write trace with the model; repeated runs in-process / cross-process / under load. PARTIAL: scheduler and hash-seed "
          "effects are runtime evidence.",
          TB, "Coq proof (clock independence) + exact-trace correspondence + repeated runs"),
